@@ -249,6 +249,8 @@ class Polyhedron(Shape3D):
             new_faces[labels[i]].update(face)
 
         self._faces = [np.asarray(list(f)) for f in new_faces]
+        # The memoized edge list refers to the old faces.
+        self.__dict__.pop("edges", None)
         self.sort_faces()
 
     @property
@@ -815,7 +817,12 @@ class Polyhedron(Shape3D):
 
         """
         principal_moments, principal_axes = np.linalg.eigh(self.inertia_tensor)
+        # eigh returns an orthogonal matrix that may be a reflection; a
+        # reorientation must be a proper rotation so the shape is not mirrored.
+        if np.linalg.det(principal_axes) < 0:
+            principal_axes[:, 0] *= -1
         self._vertices = np.dot(self._vertices, principal_axes)
+        self._find_equations()
 
     def compute_form_factor_amplitude(self, q, density=1.0):  # noqa: D102
         """Calculate the form factor intensity.
